@@ -37,6 +37,14 @@ def pattern(n, kind, rng, qc):
         a = np.zeros((n, 4), dtype=np.uint64)
         a[::2] = U64
         return a
+    if kind.startswith("per"):
+        # "per<k>:<bits>": k blocks (halves, quarters), block j near zero or near all-ones according to bit j, every coefficient with its
+        # own low bits: each butterfly of the first passes sees the same extreme combination, each with other low bits
+        k, bits = int(kind[3:kind.index(":")]), int(kind[kind.index(":") + 1:])
+        g = np.random.default_rng(rng.randrange(1 << 30))
+        jitter = g.integers(0, 1 << rng.choice([17, 20, 24]), (n, 4), dtype=np.uint64)
+        sel = np.repeat(np.array([(bits >> j) & 1 for j in range(k)]), n // k).reshape(n, 1) * np.ones((1, 4), dtype=np.int64)
+        return np.where(sel == 1, np.uint64(U64) - jitter, jitter).astype(np.uint64)
     if kind in ("blocks", "mix", "mixlane"):
         # 0 and all-ones (and their close neighbours) side by side: in blocks of a power-of-two length, per coefficient, per lane. The lazy
         # subtractions of a butterfly are closest to wrapping when one input is maximal and the other one reduces to nothing
@@ -109,6 +117,8 @@ def drive(rec, ns, quick):
         # --- round trip and linearity on extremal lanes, all positions
         bulk, bulk_mism = {}, {}
         mixes = (["blocks"] * 4 + ["mix"] * (10 if quick else 60) + ["mixlane"] * (6 if quick else 30)) if n >= 4 else []
+        if n >= 8:                   # halves and quarters in every 0 / all-ones combination, three draws of the low bits each
+            mixes += ["per2:%d" % b for b in range(1, 4)] * 3 + ["per4:%d" % b for b in range(1, 16)] * 3
         if n in (2048, 4096):        # the smallest dimensions with a reducing pass: many more of them (a wrap needs the right four inputs AND luck in the low bits)
             mixes += ["mix"] * (500 if quick else 3000) + ["mixlane"] * (300 if quick else 2000)
         for kind in ["ones", "alt", "near", "random"][:(2 if (quick and n > 4096) else 4)] + mixes:
@@ -123,11 +133,11 @@ def drive(rec, ns, quick):
                 continue
             mism = int((mod_rows(rt, qc) != mod_rows(x, qc)).sum())
             bulk[kind] = bulk.get(kind, 0) + 1
-            if bulk[kind] > 70:          # the bulk repetitions: round trip only, one summary at the end
+            if bulk[kind] > 70 or (kind.startswith("per") and bulk[kind] > 1):          # the bulk repetitions: round trip only, one summary at the end
                 bulk_mism[kind] = bulk_mism.get(kind, 0) + mism
                 continue
             # linearity: NTT(x) + NTT(y) = NTT(x + y) modulo each prime (lanes halved so that sums do not wrap)
-            y = pattern(n, "random" if kind not in ("blocks", "mix", "mixlane") else kind, rng, qc)
+            y = pattern(n, "random" if kind not in ("blocks", "mix", "mixlane") and not kind.startswith("per") else kind, rng, qc)
             xh, yh = x >> np.uint64(1), y >> np.uint64(1)
             lhs = (mod_rows(qc.run_ntt(n, False, xh), qc) + mod_rows(qc.run_ntt(n, False, yh), qc)) % np.array(qc.q, dtype=np.int64)
             rhs = mod_rows(qc.run_ntt(n, False, xh + yh), qc)
@@ -136,7 +146,7 @@ def drive(rec, ns, quick):
                            "_what": "round trip + linearity n=%d pattern=%s" % (n, kind)})
         for kind, mm in bulk_mism.items():
             events.append({"e": "NttSummary", "n": n, "pattern": kind, "mismatches": mm,
-                           "_what": "round trips n=%d pattern=%s (%d further repetitions)" % (n, kind, bulk[kind] - 70)})
+                           "_what": "round trips n=%d pattern=%s (further repetitions)" % (n, kind)})
     rec.data["events"] = events
 
 
